@@ -249,3 +249,233 @@ mod verif_cex {
         );
     }
 }
+// ---------------------------------------------------------------------------------------------
+// verif_cex_treewalk: differential harness for group `treewalk` (units W1, W3) AND for the ASSUMED
+// tree-sitter cursor contract of /verif/contracts/prelude/treewalk_ts.rs (T-ext).
+// To use: append this text verbatim to a scratch copy of src/language_parsers/mod.rs (like the
+// `src__*.rs` files of this directory; the module name differs from `verif_cex`, so it can be
+// appended after src__language_parsers__mod.rs) and run
+//   cargo test --offline --lib verif_cex_treewalk -- --nocapture
+// Oracle (independent of TreeCursor): the tree is read with `Node::child(i)` / `child_count()`.
+//   (a) cursor contract, at EVERY node of every tree: `goto_first_child` returns true iff the node
+//       has children and then rests on child 0; `goto_next_sibling` returns true iff the node is not
+//       the root and not a last child and then rests on the next child of its parent;
+//       `goto_parent` returns true iff the node is not the root and then rests on the parent;
+//       a move that returns false leaves the cursor where it was; `walk()` starts at the root;
+//   (b) W3/W1: the real `CommentsIterator` yields exactly the comments of the recognised nodes of the
+//       recursive pre-order listing, in that order, with 1-based positions and the node's byte range;
+//       a further `next()` after the last comment returns `None`;
+//   (c) the T-ext premises: rows/columns <= isize::MAX, children inside the parent's byte span,
+//       siblings ordered by position (`spans_ordered`).
+// ---------------------------------------------------------------------------------------------
+#[cfg(test)]
+#[allow(unused_imports, dead_code, clippy::all)]
+mod verif_cex_treewalk {
+    use super::*;
+    use serde_json::{Value, json};
+
+    fn cex_fail(unit: &str, what: &str, input: Value, expected: Value, observed: Value) -> ! {
+        println!(
+            "VERIF-CEX {}",
+            json!({"unit": unit, "what": what, "input": input, "expected": expected, "observed": observed})
+        );
+        panic!("counterexample for unit {unit}: {what}");
+    }
+
+    fn cex_none(unit: &str, cases: u64, bound: &str) {
+        println!("VERIF-CEX-NONE {}", json!({"unit": unit, "cases": cases, "bound": bound}));
+    }
+
+    fn preorder<'a>(n: Node<'a>, out: &mut Vec<Node<'a>>) {
+        out.push(n);
+        for i in 0..n.child_count() {
+            preorder(n.child(i as u32).unwrap(), out);
+        }
+    }
+
+    fn describe(n: &Node) -> Value {
+        json!({"kind": n.kind(), "bytes": [n.start_byte(), n.end_byte()]})
+    }
+
+    /// (a) + (c) at node `n` reached by `cursor`; recursion over children with the cursor moved along.
+    fn check_cursor<'a>(lang: &str, src: &str, cursor: &TreeCursor<'a>, n: Node<'a>, parent: Option<(Node<'a>, usize)>, cases: &mut u64) {
+        let input = json!({"language": lang, "source": src, "node": describe(&n)});
+        *cases += 1;
+        if cursor.node() != n {
+            cex_fail("W3", "cursor rests on the expected node", input, describe(&n), describe(&cursor.node()));
+        }
+        // (c) premises
+        for p in [n.start_position(), n.end_position()] {
+            if p.row > isize::MAX as usize || p.column > isize::MAX as usize {
+                cex_fail("W1", "rows and columns fit isize (positions_fit)", input, json!("<= isize::MAX"), json!([p.row, p.column]));
+            }
+        }
+        if n.start_byte() > n.end_byte() {
+            cex_fail("W3", "spans_ordered: start <= end", input, json!(null), describe(&n));
+        }
+        if let Some((p, i)) = parent {
+            if !(p.start_byte() <= n.start_byte() && n.end_byte() <= p.end_byte()) {
+                cex_fail("W3", "spans_ordered: child inside parent", input, describe(&p), describe(&n));
+            }
+            if i > 0 {
+                let prev = p.child((i - 1) as u32).unwrap();
+                if prev.end_byte() > n.start_byte() {
+                    cex_fail("W3", "spans_ordered: siblings ordered by position", input, describe(&prev), describe(&n));
+                }
+            }
+        }
+        // goto_first_child
+        let mut c = cursor.clone();
+        let moved = c.goto_first_child();
+        if moved != (n.child_count() > 0) {
+            cex_fail("W3", "goto_first_child returns true iff the node has children", input, json!(n.child_count() > 0), json!(moved));
+        }
+        if moved && c.node() != n.child(0).unwrap() {
+            cex_fail("W3", "goto_first_child rests on child 0", input, describe(&n.child(0).unwrap()), describe(&c.node()));
+        }
+        if !moved && c.node() != n {
+            cex_fail("W3", "a failed goto_first_child does not move", input, describe(&n), describe(&c.node()));
+        }
+        // goto_next_sibling
+        let mut c = cursor.clone();
+        let moved = c.goto_next_sibling();
+        let expect_sib = match parent {
+            Some((p, i)) if i + 1 < p.child_count() => Some(p.child((i + 1) as u32).unwrap()),
+            _ => None,
+        };
+        if moved != expect_sib.is_some() {
+            cex_fail("W3", "goto_next_sibling returns true iff there is a next sibling (never at the root)", input, json!(expect_sib.is_some()), json!(moved));
+        }
+        if let Some(s) = expect_sib {
+            if c.node() != s {
+                cex_fail("W3", "goto_next_sibling rests on the next child of the parent", input, describe(&s), describe(&c.node()));
+            }
+        } else if c.node() != n {
+            cex_fail("W3", "a failed goto_next_sibling does not move", input, describe(&n), describe(&c.node()));
+        }
+        // goto_parent
+        let mut c = cursor.clone();
+        let moved = c.goto_parent();
+        if moved != parent.is_some() {
+            cex_fail("W3", "goto_parent returns true iff the node is not the root", input, json!(parent.is_some()), json!(moved));
+        }
+        match parent {
+            Some((p, _)) => {
+                if c.node() != p {
+                    cex_fail("W3", "goto_parent rests on the parent", input, describe(&p), describe(&c.node()));
+                }
+            }
+            None => {
+                if c.node() != n {
+                    cex_fail("W3", "a failed goto_parent does not move", input, describe(&n), describe(&c.node()));
+                }
+            }
+        }
+        // children, cursor moved along with goto_first_child / goto_next_sibling
+        if n.child_count() > 0 {
+            let mut c = cursor.clone();
+            c.goto_first_child();
+            for i in 0..n.child_count() {
+                check_cursor(lang, src, &c, n.child(i as u32).unwrap(), Some((n, i)), cases);
+                if i + 1 < n.child_count() {
+                    c.goto_next_sibling();
+                }
+            }
+        }
+    }
+
+    fn visitors() -> Vec<(&'static str, fn(&Node, &str) -> Option<String>)> {
+        vec![
+            ("every node", |n, _s| Some(format!("{}@{}", n.kind(), n.start_byte()))),
+            ("leaves only", |n, _s| if n.child_count() == 0 { Some(n.kind().to_string()) } else { None }),
+            ("inner nodes only", |n, _s| if n.child_count() > 0 { Some(n.kind().to_string()) } else { None }),
+            ("kinds containing `comment`", |n, s| if n.kind().contains("comment") { Some(s[n.byte_range()].to_string()) } else { None }),
+            ("no node", |_n, _s| None),
+            ("root only", |n, _s| if n.parent().is_none() { Some(String::from("root")) } else { None }),
+        ]
+    }
+
+    #[test]
+    fn cex_W3() {
+        let languages: Vec<(&str, Language)> = vec![
+            ("rust", tree_sitter_rust::LANGUAGE.into()),
+            ("python", tree_sitter_python::LANGUAGE.into()),
+            ("c", tree_sitter_c::LANGUAGE.into()),
+            ("html", tree_sitter_html::LANGUAGE.into()),
+            ("javascript", tree_sitter_javascript::LANGUAGE.into()),
+            ("bash", tree_sitter_bash::LANGUAGE.into()),
+        ];
+        let sources: Vec<&str> = vec![
+            "",
+            "\n",
+            "x",
+            "// a\n",
+            "/* a */ /* b */",
+            "# <block>\nx = 1\n# </block>\n",
+            "fn main() { // c1\n  let x = 1; /* c2 */\n}\n// c3",
+            "fn f( { /* unterminated",
+            "<!-- a --><p><!-- b --><b>x</b></p><!-- c -->",
+            "def f(:\n  # c\n    return (\n",
+            "int main(void) { return 0; } /* <block name=\"x\"> */ int a; /* </block> */",
+            "a(b(c(d(e(f(g(1)))))))\n// deep\n",
+            "\u{e9}\u{e9} // \u{fc}\n\t/* \u{4e2d} */\r\n",
+            include_str!("mod.rs"),
+            include_str!("../block_parser.rs"),
+        ];
+        let mut cases: u64 = 0;
+        for (lname, lang) in &languages {
+            for src in &sources {
+                // (a), (c): the cursor contract on the real tree
+                let mut p = Parser::new();
+                p.set_language(lang).unwrap();
+                let tree = p.parse(src, None).unwrap();
+                let root = tree.root_node();
+                check_cursor(lname, src, &tree.walk(), root, None, &mut cases);
+                // (b): the real iterator against the recursive pre-order listing
+                for (vname, vf) in visitors() {
+                    let input = json!({"language": lname, "source": src, "visitor": vname});
+                    let mut cp = TreeSitterCommentsParser::new(lang, Box::new(vf));
+                    let got: Vec<Comment> = {
+                        let mut it = cp.parse(src);
+                        let mut got = Vec::new();
+                        while let Some(c) = it.next() {
+                            got.push(c);
+                            if got.len() > 1_000_000 {
+                                cex_fail("W3", "the iterator terminates", input.clone(), json!(null), json!("more than 10^6 items"));
+                            }
+                        }
+                        got
+                    };
+                    let mut p2 = Parser::new();
+                    p2.set_language(lang).unwrap();
+                    let tree2 = p2.parse(src, None).unwrap();
+                    let mut nodes = Vec::new();
+                    preorder(tree2.root_node(), &mut nodes);
+                    let mut want: Vec<Comment> = Vec::new();
+                    for n in &nodes {
+                        if let Some(text) = vf(n, src) {
+                            want.push(Comment {
+                                position_range: Position::new(n.start_position().row + 1, n.start_position().column + 1)
+                                    ..Position::new(n.end_position().row + 1, n.end_position().column + 1),
+                                source_range: n.start_byte()..n.end_byte(),
+                                comment_text: text,
+                            });
+                        }
+                    }
+                    cases += 1;
+                    if got != want {
+                        let k = got.iter().zip(want.iter()).position(|(a, b)| a != b).unwrap_or(got.len().min(want.len()));
+                        cex_fail(
+                            "W3",
+                            "the iterator yields exactly the comments of the recognised nodes, each once, in pre-order",
+                            input,
+                            json!({"count": want.len(), "first_difference_at": k, "item": format!("{:?}", want.get(k))}),
+                            json!({"count": got.len(), "item": format!("{:?}", got.get(k))}),
+                        );
+                    }
+                }
+            }
+        }
+        cex_none("W3", cases, "6 grammars x 15 sources (empty, syntax errors, unterminated comment, non-ASCII, CRLF, two source files of the crate) x 6 visitors; cursor contract checked at every node");
+    }
+}
